@@ -881,3 +881,35 @@ func exitGuardsText(r *ssa.Return) string {
 	}
 	return t
 }
+
+func init() {
+	addRule("C15", &core.Rule{ID: "C15.reader-dispatch", Floor: 16, Run: readerDispatch,
+		Doc: "Protocol dispatch of the cache readers (both runtimes): a local file is read only for `file://` values and the cluster object only for `secret://` (or no protocol): the os.Stat/os.ReadFile calls are on the `proto == \"file\"` branch, name resolution (buildResourceName) on the branch where the protocol is neither file nor unknown. An inverted dispatch reads an arbitrary local path for a secret name."})
+	addRule("C09", &core.Rule{ID: "C09.reader-dispatch", Floor: 16, Run: readerDispatch, Doc: "Shared with C15: the permission-checking name resolution is on the path of every cluster read."})
+}
+
+func readerDispatch(c *core.Ctx) {
+	for _, pk := range [][2]string{{"controller/services", "c."}, {"controller/legacy", "k8scache."}} {
+		for _, name := range []string{"GetTLSSecretPath", "GetCASecretPath", "GetDHSecretPath", "GetPasswdSecretContent"} {
+			fn := c.Fn(pk[0], pk[1]+name)
+			if fn == nil {
+				continue
+			}
+			isFile := has("getContentProtocol(", `#0 == "file")`)
+			notSecret := has("getContentProtocol(", `#0 != "secret")`)
+			nFile, nRes := 0, 0
+			for _, s := range core.Calls(fn, false) {
+				cn := core.CalleeName(s.Common())
+				switch {
+				case cn == "os.Stat" || cn == "os.ReadFile":
+					nFile++
+					c.Check(guardedBy(s.Instr, isFile, true), pk[0]+"."+name+" touches the local file system only for file://", at(c, s.Instr), "", cn+" is reachable outside the `proto == \"file\"` branch")
+				case strings.HasSuffix(cn, "buildResourceName"):
+					nRes++
+					c.Check(guardedBy(s.Instr, isFile, false) && guardedBy(s.Instr, notSecret, false), pk[0]+"."+name+" resolves a cluster name only for secret values", at(c, s.Instr), "", "buildResourceName is not on the `not file, is secret` branch")
+				}
+			}
+			c.Check(nFile >= 1 && nRes == 1, pk[0]+"."+name+" has both branches", c.Pos(fn.Pos()), "", fmt.Sprintf("%d file reads, %d name resolutions", nFile, nRes))
+		}
+	}
+}
